@@ -120,8 +120,11 @@ func ruleR03_3(c *Check) {
 		if !ok || len(rs.Results) == 0 {
 			return false
 		}
+		if lit, isLit := unparen(rs.Results[0]).(*ast.FuncLit); isLit {
+			return lit == ret.Lit
+		}
 		id, ok := unparen(rs.Results[0]).(*ast.Ident)
-		return ok && w.Use(id) == types.Object(retVar)
+		return ok && retVar != nil && w.Use(id) == types.Object(retVar)
 	})
 	conflictRet := selPred("conflict return", func(w *World, fn *Fn, n ast.Node) bool {
 		rs, ok := n.(*ast.ReturnStmt)
